@@ -18,6 +18,6 @@ Emit == PrintT(ToJson([def |-> d, verdict |-> Verdict(DN(FALSE), "GET", FALSE, 0
                                 capout |-> CapturingOutsideVar(DN(FALSE))]]))
 
 Base == <<"/", "a">>
-ASSUME \A m \in DOMAIN MethodCases : \A hn \in BOOLEAN : \A n \in {0, 1, 61, 62, 63, 64} :
+ASSUME \A m \in DOMAIN MethodCases : \A hn \in BOOLEAN : \A n \in {0, 1, 61, 62, 63, 64, 127, 128, 200, 300} :
           PrintT(ToJson([method |-> m, text |-> MethodCases[m], handlernil |-> hn, nmw |-> n, verdict |-> Verdict(Base, m, hn, n)]))
 =============================================================================
